@@ -322,6 +322,7 @@ class MSession(ftpsim.Session):
             except Exception as e:
                 d["dpeer"] = type(e).__name__
         d["acquired"] = c.acquired
+        d["xoff"] = c["transfer_offset"].result() if "transfer_offset" in c and c["transfer_offset"].done() else None
         # per-socket objects (identity only): backend instance bound to THIS connection, per-connection throttle clones
         pio = c.path_io
         d["pio_own"] = getattr(pio, "connection", None) is c
@@ -552,7 +553,7 @@ def server_fingerprint(server):
     return out
 
 
-PROBE_KEYS = ("user", "has_user", "logged", "cwd", "rnfr", "rest", "passive", "data", "workers", "type", "lport", "dpeer", "acquired", "pio_own", "ids")
+PROBE_KEYS = ("user", "has_user", "logged", "cwd", "rnfr", "rest", "passive", "data", "workers", "type", "lport", "dpeer", "acquired", "xoff", "pio_own", "ids")
 
 
 def run_impl(n, schedule, cfg):
@@ -1261,7 +1262,7 @@ def correspondence(ctx, budget=None):
     ctx.extra["rule"] = (
         "pairs/triples of scripted sessions (16 script bodies: navigation, store/retrieve/delete, REST+RETR/STOR, RNFR/RNTO incl. a pending "
         "rename across other commands, TYPE+LIST/MLSD/MLST, APPE, re-login as another user, transfers without / with refused data connections "
-        "+ ABOR + listener renewal, ABOR of an own held / half-sent transfer, error replies, QUIT, server-side session teardown (REST with a non-decimal digit, EPSV <arg>)) x login "
+        "+ ABOR + listener renewal, ABOR of an own held / half-sent transfer, error replies, QUIT, the former session-killers REST <non-ASCII digit> (501) and EPSV <arg> (522, session continues), a restart offset consumed by exactly one transfer) x login "
         "(same user twice, different users, password-less, anonymous, home inside the directory, failed PASS first) x disjoint directories "
         "with the same names and different contents x schedules: (1) command granularity: one script inserted as a block at every position "
         "of the other, strict alternation, random merges, a session crashing (RST) or closing anywhere; the same with simultaneous command "
